@@ -140,7 +140,7 @@ def gen_var(rng, nm, types_visible, absints_visible, role="local", like=None):
         spec = dict(like["type"])
     else:
         spec = gen_typespec(rng, types_visible, absints_visible, allow_proc=(role != "arg"))
-    v = {"name": nm.fresh("v"), "type": spec, "attrs": [], "dims": None, "intent": "", "optional": False,
+    v = {"name": nm.fresh("v"), "type": spec, "attrs": [], "dims": None, "codims": None, "intent": "", "optional": False,
          "parameter": False, "init": None, "points": False}
     base = spec["base"]
     if base == "procedure":
@@ -163,6 +163,7 @@ def gen_var(rng, nm, types_visible, absints_visible, role="local", like=None):
             v["attrs"].append("contiguous")
         elif v["dims"] is None and v["intent"] == "in" and not v["optional"] and rng.random() < 0.2:
             v["attrs"].append("value")
+        gen_codims(rng, v, role)
         return v
     if v["dims"] == "(*)":
         v["dims"] = "(3)"
@@ -197,7 +198,25 @@ def gen_var(rng, nm, types_visible, absints_visible, role="local", like=None):
         for a in rng.sample(["save", "target", "volatile", "asynchronous"], rng.choice([1, 2, 2, 3])):
             if a not in v["attrs"] and not (a == "target" and "pointer" in v["attrs"]):
                 v["attrs"].append(a)
+    gen_codims(rng, v, role)
     return v
+
+
+COSHAPES = ["[*]", "[2,*]", "[0:*]", "[n, *]"]
+
+
+def gen_codims(rng, v, role):
+    """now and then the entity is a coarray (`a[*]`, `b(3)[2,*]`, `c(:)[:]`): a module variable, a saved or
+    allocatable local, a dummy argument (not VALUE, not a pointer)"""
+    if rng.random() >= 0.1 or v["parameter"] or "pointer" in v["attrs"] or "value" in v["attrs"] or v["init"] is not None:
+        return
+    if v["type"]["base"] in ("procedure", "class") or v["type"]["len"] == ":":
+        return
+    if "allocatable" in v["attrs"]:
+        v["codims"] = rng.choice(["[:]", "[:,:]"])
+    elif role == "modvar" or role == "arg" or (role == "local" and "save" in v["attrs"]):
+        c = rng.choice(COSHAPES)
+        v["codims"] = c if role == "arg" else c.replace("n, ", "3, ")
 
 
 def gen_sibling_or_new(rng, nm, earlier, types_visible, absints_visible, role):
@@ -224,6 +243,7 @@ def gen_proc(rng, nm, types_visible, absints_visible, depth=0, in_interface=Fals
                 if a["type"]["base"] not in ("class",):
                     a["intent"] = "in"
                 a["optional"] = False
+                a["codims"] = None
                 if "elemental" in p["prefixes"][0]:
                     a["dims"] = None
                     a["attrs"] = []
@@ -241,6 +261,7 @@ def gen_proc(rng, nm, types_visible, absints_visible, depth=0, in_interface=Fals
         p["bindc"] = rng.choice(["c", "c, name='%s'" % nm.fresh("c"), 'C, name="%s"' % nm.fresh("c")])
         for a in p["args"]:
             a["optional"] = False
+            a["codims"] = None
     if not in_interface:
         types_visible = list(types_visible)
         if rng.random() < 0.2:
@@ -596,12 +617,38 @@ def render_typespec(S, spec):
     return out
 
 
+def charlen_spelling(S, ln):
+    """the character length written after the entity name: `*10`, `*(10)`, `*(*)`, `* ( n )` (`character c*10` is an
+    equivalent spelling of `character(len=10) c`; after the name it follows the array / coarray specification)"""
+    rng = S.rng
+    if ln.isdigit() and rng.random() < 0.5:
+        return S.sp() + "*" + S.sp() + ln
+    return S.sp() + "*" + S.sp() + "(" + S.sp() + ln + S.sp() + ")"
+
+
+def entity_len_choice(S, spec):
+    """(type specification to write, length to write after the entity name or None): for a character entity with a
+    length the length may stand after the name only, or (redundantly) in both places"""
+    if spec["base"] != "character" or spec["len"] is None:
+        return spec, None
+    r = S.rng.random()
+    if r < 0.2:
+        return dict(spec, len=None), spec["len"]
+    if r < 0.3:
+        return spec, spec["len"]
+    return spec, None
+
+
 def render_decl(S, v, allow_separate=True):
     """Returns (declaration statement, [separate attribute statements])."""
     rng = S.rng
     inline, separate = [], []
     name = S.ident(v["name"])
     dims_on_name = False
+    codims_on_name = True
+    if v.get("codims") and v["type"]["base"] != "procedure" and rng.random() < 0.3:
+        codims_on_name = False
+        inline.append(S.kw("codimension") + S.sp() + v["codims"])
 
     def place(attr_inline, attr_stmt):
         if allow_separate and attr_stmt is not None and rng.random() < 0.3:
@@ -636,8 +683,10 @@ def render_decl(S, v, allow_separate=True):
         else:
             inline.append(S.kw("parameter"))
     rng.shuffle(inline)
-    decl = render_typespec(S, v["type"])
-    ent = name + (v["dims"] if dims_on_name else "")
+    spec, elen = entity_len_choice(S, v["type"])
+    decl = render_typespec(S, spec)
+    ent = name + (v["dims"] if dims_on_name else "") + (v["codims"] if v.get("codims") and codims_on_name else "") \
+        + (charlen_spelling(S, elen) if elen is not None else "")
     if v["init"] is not None and not sep_param:
         ent += (" => " if v["points"] else rng.choice([" = ", "=", "  =  "])) + v["init"]
     need_colons = bool(inline) or (v["init"] is not None and not sep_param) or rng.random() < 0.7 or decl.rstrip().endswith(")") is False and False
@@ -752,20 +801,32 @@ def render_merged(S, vs, allow_separate=False):
     shared_dims = v["dims"] if v["dims"] and all(w["dims"] == v["dims"] for w in vs) and rng.random() < 0.4 else None
     if shared_dims:
         inline.insert(rng.randrange(len(inline) + 1), S.kw("dimension") + S.sp() + shared_dims)
-    for n, w in zip(names, vs):
+    spec = v["type"]
+    elens = [None] * len(vs)
+    if spec["base"] == "character" and spec["len"] is not None:
+        r = rng.random()
+        if r < 0.15:
+            spec, elens = dict(spec, len=None), [v["type"]["len"]] * len(vs)
+        elif r < 0.3:
+            elens = [v["type"]["len"] if rng.random() < 0.5 else None for _ in vs]
+    for n, w, elen in zip(names, vs, elens):
         e = n
         if w["dims"] and not shared_dims:
             if allow_separate and w["init"] is None and rng.random() < 0.25:
                 dim_stmt.append(n + w["dims"])
             else:
                 e += w["dims"]
+        if w.get("codims"):
+            e += w["codims"]
+        if elen is not None:
+            e += charlen_spelling(S, elen)
         if w["init"] is not None:
             e += (" => " if w["points"] else rng.choice([" = ", "=", "  =  "])) + w["init"]
         ents.append(e)
     if dim_stmt:
         separate.append(S.kw("dimension") + rng.choice([" :: ", " "]) + rng.choice([", ", ","]).join(dim_stmt))
     rng.shuffle(separate)
-    return (render_typespec(S, v["type"]) + "".join(S.sp() + "," + S.sp() + a for a in inline) + S.sp() + "::" + S.sp()
+    return (render_typespec(S, spec) + "".join(S.sp() + "," + S.sp() + a for a in inline) + S.sp() + "::" + S.sp()
             + rng.choice([", ", ",", " , "]).join(ents)), separate
 
 
@@ -1046,6 +1107,7 @@ def canon_var(v):
         "proto": nsp(sp["proto"]) if sp["proto"] else None,
         "attribs": sorted(nsp(a) for a in v["attrs"]),
         "dims": nsp(v["dims"]) or "",
+        "codims": nsp(v.get("codims")) or "",
         "intent": v["intent"],
         "optional": bool(v["optional"]),
         "parameter": bool(v["parameter"]),
@@ -1058,7 +1120,7 @@ def implicit_var(name):
     first = name.lower()[0]
     vt = "integer" if first in "ijklmn" else "real"
     return {"name": name.lower(), "vartype": vt, "kind": None, "strlen": None, "proto": None, "attribs": [],
-            "dims": "", "intent": "", "optional": False, "parameter": False, "initial": None}
+            "dims": "", "codims": "", "intent": "", "optional": False, "parameter": False, "initial": None}
 
 
 def byname(lst):
@@ -1154,11 +1216,52 @@ def canon_project(P):
 SPECIAL = {"optional", "parameter"}
 
 
+def split_shape(text):
+    """what FORD records behind the name of an entity (`(3)`, `[*]`, `(2,3)[2,*]`) -> (array specification +
+    coarray specification, whatever follows): a leading balanced `(..)`, then a balanced `[..]`"""
+    def group(t, o, c):
+        if not t.startswith(o):
+            return "", t
+        depth = 0
+        for i, ch in enumerate(t):
+            depth += ch == o
+            depth -= ch == c
+            if depth == 0:
+                return t[:i + 1], t[i + 1:]
+        return "", t
+    dims, rest = group(text, "(", ")")
+    codims, rest = group(rest, "[", "]")
+    return dims, codims, rest
+
+
+def entity_length(rest):
+    """`*10`, `*(10)`, `*(*)`, `*(2*n)` behind the array / coarray specification of a character entity -> the length
+    it gives that entity (Fortran: the length after the name overrides the one of the type specification); None when
+    the text is not such a length"""
+    if not rest.startswith("*"):
+        return None
+    ln = rest[1:]
+    if ln.startswith("("):
+        depth = 0
+        for i, ch in enumerate(ln):
+            depth += ch == "("
+            depth -= ch == ")"
+            if depth == 0:
+                return ln[1:i] if i == len(ln) - 1 and i > 1 else None
+        return None
+    return ln if ln.isdigit() else None
+
+
 def obs_var(v):
     if not hasattr(v, "vartype"):
         return {"name": str(getattr(v, "name", v)).lower(), "notvar": type(v).__name__}
     attribs = [nsp(a) for a in v.attribs]
-    dims = nsp(v.dimension) or ""
+    # FORD keeps what follows the name of an entity as written (it shows `character(len=1) :: c*10`, a declaration
+    # equivalent to the source): array specification, coarray specification, character length
+    dims, codims, rest = split_shape(nsp(v.dimension) or "")
+    strlen = nsp(v.strlen)
+    if v.vartype == "character" and entity_length(rest) is not None:
+        strlen, rest = entity_length(rest), ""
     keep = []
     optional = bool(v.optional)
     parameter = bool(v.parameter)
@@ -1166,6 +1269,8 @@ def obs_var(v):
     for a in attribs:
         if a.startswith("dimension("):
             dims = a[len("dimension"):]
+        elif a.startswith("codimension["):
+            codims = a[len("codimension"):]
         elif a == "optional":
             optional = True
         elif a == "parameter":
@@ -1179,7 +1284,7 @@ def obs_var(v):
         p0 = v.proto[0]
         proto = nsp(getattr(p0, "name", p0))
     return {"name": v.name.lower(), "vartype": v.vartype, "kind": nsp(v.kind),
-            "strlen": nsp(v.strlen), "proto": proto, "attribs": sorted(keep), "dims": dims,
+            "strlen": strlen, "proto": proto, "attribs": sorted(keep), "dims": dims + rest, "codims": codims,
             "intent": intent, "optional": optional, "parameter": parameter, "initial": nsp(v.initial)}
 
 
